@@ -102,6 +102,8 @@ func C16Read(r *eng.Run) {
 	}
 	seg := DrawSeg(r)
 	withData := r.T.Chance(sim.LFault, 1, 4)
+	zeroReads, netErr := r.T.Chance(sim.LFault, 1, 8), r.T.Chance(sim.LFault, 1, 3)
+	cfg.ZeroBuf = (cfg.App == AppReader || cfg.App == AppNextReader) && r.T.Chance(sim.LFault, 1, 8)
 	model := Model(s, cfg)
 	r.Note("C16 read %s side=%d seg=%d endWithData=%v stream(%d bytes): %s", cfg.Name(), cfg.Side, seg, withData, len(s.Wire), s.Describe())
 
@@ -114,7 +116,7 @@ func C16Read(r *eng.Run) {
 			p := NewPipe(r, s.Wire)
 			p.Marks = MarksOf(s.Frames)
 			p.SegMode = seg
-			p.EOFWithData = withData
+			p.EOFWithData, p.ZeroReads, p.NetErr = withData, zeroReads, netErr
 			p.CutAt, p.CutKind = k, kind
 			o := RunApp(r, p, cfg)
 			checkCut(r, cfg, s, model, p, o, k, kind)
